@@ -429,6 +429,55 @@ def rule_pf(repo, tier):
         cc = _find_calls(P, 'compute_cov')[0]
         ok = len(cc.args) >= 3 and dump(cc.args[0]) == dump(cc.args[1]) and _mentions_noise(cc.args[2], 'Q') and not _mentions_noise(cc.args[2], 'R')
     chk('cov-of-resampled+Q', ok, 'returned covariance is not cov(resampled deviations) + Q')
+    # forward takes the UNWEIGHTED mean / covariance of what resample_particles returns: every return of resample_particles therefore is a selection of the
+    # particles by the weights q (an index computed from q).  A path that hands the propagated particles back unchanged (an "effective sample size is large
+    # enough, skip resampling" shortcut) drops the measurement: the result is the prior propagated through f.  And every selecting index is bounded by the
+    # number of particles.
+    fr = repo.func(PF, 'PF.resample_particles')
+    qn, xn = fr.pos_params[1], fr.pos_params[2]
+    n_ret = 0
+    for r in returns_of(fr.node):
+        n_ret += 1
+        v = inline_straight(fr.node, upto=r).value(r.value) if r.value is not None else None
+        uses_q = v is not None and any(isinstance(n, ast.Name) and n.id == qn for n in ast.walk(v))
+        selects = isinstance(v, ast.Subscript) or (isinstance(v, ast.Call) and (dotted(v.func) or (v.func.attr if isinstance(v.func, ast.Attribute) else '')).split('.')[-1]
+                                                   in ('index_select', 'gather', 'take_along_dim'))
+        res.inst({'function': fr.fq, 'return': src(r)[:60], 'selects particles by the weights': bool(uses_q and selects)}, ('resample-return', src(r)[:60]))
+        if not (uses_q and selects):
+            res.add(Finding('C13.PF', fr, '`%s` returns the particles without selecting them by the weights `%s`: PF.forward averages what comes back with EQUAL weights, so on '
+                            'this path the measurement has no effect - the estimate is the propagated prior' % (src(r)[:50], qn), node=r,
+                            construct='resample returns unselected particles'))
+    if n_ret == 0:
+        raise AnalysisError('C13.PF: resample_particles has no return')
+    # searchsorted(cumsum(q), r) returns N (one past the end) for every uniform draw above the last cumulative weight; in float32 the cumulative sum of 1e6
+    # normalised weights ends at 0.9999x, so a handful of the 1e6 draws index out of bounds.  The index is clamped to N - 1, or the cumulative weights are
+    # normalised by their own last entry (then nothing exceeds them), or the draws are scaled by it.
+    for c in paths.calls_in(fr.node):
+        if (dotted(c.func) or (c.func.attr if isinstance(c.func, ast.Attribute) else '')).split('.')[-1] != 'searchsorted' or len(c.args) < 2:
+            continue
+        full = None
+        for r in returns_of(fr.node):
+            if r.value is not None:
+                full = inline_straight(fr.node, upto=r).value(r.value)
+        seq = inline_straight(fr.node).value(c.args[0]) if isinstance(c.args[0], ast.Name) else c.args[0]
+        draws = inline_straight(fr.node).value(c.args[1]) if isinstance(c.args[1], ast.Name) else c.args[1]
+
+        def last_entry(e):
+            return any(isinstance(x, ast.Subscript) and any(isinstance(y, ast.UnaryOp) and isinstance(y.op, ast.USub) and isinstance(y.operand, ast.Constant) and y.operand.value == 1
+                                                             for y in ast.walk(x.slice)) for x in ast.walk(e))
+        normalised = isinstance(seq, ast.BinOp) and isinstance(seq.op, ast.Div) and last_entry(seq.right)
+        scaled = isinstance(draws, ast.BinOp) and isinstance(draws.op, ast.Mult) and (last_entry(draws.left) or last_entry(draws.right))
+        clamped = full is not None and any(isinstance(x, ast.Call) and (dotted(x.func) or (x.func.attr if isinstance(x.func, ast.Attribute) else '')).split('.')[-1] in
+                                           ('clamp', 'clamp_', 'clamp_max', 'clamp_max_', 'clip', 'minimum') and any(y is not None and dump(y) == dump(c) for y in
+                                           [x.func.value if isinstance(x.func, ast.Attribute) else None] + list(x.args)) for x in ast.walk(full)) or \
+            any(isinstance(x, ast.Call) and (x.func.attr if isinstance(x.func, ast.Attribute) else '') in ('clamp', 'clamp_', 'clamp_max', 'clamp_max_', 'clip') and
+                any(y is c for y in ast.walk(x)) for x in ast.walk(fr.node))
+        okb = normalised or scaled or clamped
+        res.inst({'function': fr.fq, 'index': src(c)[:60], 'bounded by the number of particles': okb}, ('resample-bound', src(c)[:60]))
+        if not okb:
+            res.add(Finding('C13.PF', fr, '`%s` is used as an index without a bound: for a draw above the last cumulative weight searchsorted returns N, one past the end; the '
+                            'float32 cumulative sum of 1e6 normalised weights ends at 0.9999x, so a PF step with many particles raises IndexError now and then' % src(c)[:50],
+                            node=c, construct='unbounded resampling index'))
     return res
 
 
